@@ -2,6 +2,7 @@ import IbicusModel.Props.C08
 import IbicusModel.Lemmas.GenWindows
 import IbicusModel.Props.Calendar
 import IbicusModel.Props.CalendarAgree
+import IbicusModel.Lemmas.GenLoops
 -- property theorems
 #print axioms Props.C08.window_mem_iff_circ
 #print axioms Props.C08.adjust_close
@@ -28,3 +29,14 @@ import IbicusModel.Props.CalendarAgree
 #print axioms Props.Calendar.season_partition
 -- the two models of the inferred calendar (successor-day iteration / year arithmetic) agree on year and day of year
 #print axioms Props.CalendarAgree.inferred_agree
+-- tier A: the structure of the real running-window loops / of `use` regenerated from the AST = the expected specs
+#print axioms Lemmas.GenLoops.useDoy
+#print axioms Lemmas.GenLoops.loopRW
+#print axioms Lemmas.GenLoops.loopDC
+#print axioms Lemmas.GenLoops.loopIsimipRW
+-- … and the denotation of the expected specs is the skeleton the locality theorems are stated on
+#print axioms Lemmas.GenLoops.denote_loopRW
+#print axioms Lemmas.GenLoops.denote_loopDC
+#print axioms Lemmas.GenLoops.denote_loopIsimipRW
+#print axioms Lemmas.GenLoops.denoteGen_useDoy
+#print axioms Lemmas.GenLoops.genCentres_useDoy
